@@ -244,10 +244,11 @@ def run(ctx):
                         for atom in (0, 1):
                             p2 = pos.copy()
                             p2[atom] += np.array(sh) * np.array(b)
-                            s = mk(p2, vels[0], box)
-                            J.close("Distance", ref_d, J.calc("Distance", dist, s, "img"), "image-shift", (tuple(rel), b, sh, atom))
-                            if not tie:
-                                J.close("Distancevel", ref_v, J.calc("Distancevel", dvel, s, "img"), "image-shift", (tuple(rel), b, sh, atom))
+                            for fname, fbox in forms:  # every form in which the engines hand over the same box
+                                s = mk(p2, vels[0], fbox)
+                                J.close("Distance", ref_d, J.calc("Distance", dist, s, "img"), "image-shift", (tuple(rel), b, sh, atom, fname))
+                                if not tie:
+                                    J.close("Distancevel", ref_v, J.calc("Distancevel", dvel, s, "img"), "image-shift", (tuple(rel), b, sh, atom, fname))
                 # rotation (box lengths permuted accordingly)
                 for R in (ROT if not quick else ROT[::4]):
                     p2 = pos @ R.T
